@@ -1,4 +1,4 @@
-import AmVerif.Proofs.Local
+import AmVerif.Proofs.LocalSplice
 /-
   C03 — "Local edits have their documented sequential effect: Each editing call (put, put_object,
   insert, insert_object, delete, increment, splice, splice_text, mark/unmark, split/join block)
@@ -194,6 +194,29 @@ example : localSpliceText .utf8 opsT tT txt 3 0 [99] = .error .index ∧
 theorem C03_splice_text_empty_out_of_range :
     localSpliceText .utf8 opsT tT txt 7 1 [] = .ok [] := by
   rw [localSpliceText_eq, utf8Chars_nil]; decide
+
+/-- FINDING (negated form of "wrong key kind … returns an error", witness on the model, which the
+    differential run ties to the code): `delete` does not check the key kind — `local_op`
+    dispatches on the kind of the *prop* only (transaction/inner.rs `delete` → `local_op` →
+    `local_map_op`), so deleting a string key of a LIST object finds an empty register and
+    returns Ok with no op; `increment` with a string key on a list fails with `missingCounter`,
+    not `invalidOp`. -/
+theorem C03_delete_wrong_key_kind_not_an_error :
+    objType ops0 lst = some .list ∧
+    localPut .utf8 ops0 t0 lst (.inl [97]) .del false = .ok [] ∧
+    localPut .utf8 ops0 t0 lst (.inl [97]) (.inc 1) false = .error .missingCounter := by decide
+
+/-- FINDING (negated form of "index out of range … returns an error", witness on the model):
+    `splice_text(pos, del, "")` — which is also what `delete(text, pos)` runs — with `pos`
+    beyond the end returns Ok and does nothing: the delete loop of `inner_splice` `break`s when
+    `seek_ops_by_index` finds no element (inner.rs, `let step = if let Some(op) = … else { break }`);
+    likewise a `del` reaching beyond the end deletes what is there and reports success. -/
+theorem C03_text_delete_out_of_range_not_an_error :
+    unitsLen .utf8 true (seqRegs opsT txt) = 2 ∧
+    localSpliceText .utf8 opsT tT txt 7 1 [] = .ok [] ∧
+    localSpliceText .utf8 opsT tT txt 1 5 [] =
+      .ok [⟨⟨4, [1]⟩, txt, .elem ⟨3, [1]⟩, false, .del, [⟨3, [1]⟩]⟩] := by
+  rw [localSpliceText_eq, localSpliceText_eq, utf8Chars_nil]; decide
 
 /-! ## (2) put on a map key -/
 
@@ -423,5 +446,265 @@ example : mixC ∈ mapRegOps ops0 .root [109] ∧ mixS ∈ mapRegOps ops0 .root 
     mixC.isCounterPut = true ∧ mixS.isCounterPut = false := by decide
 
 end Increment
+
+/-! ## (5) lists and text: update, delete, increment of an element; insert -/
+
+section ListOps
+variable {e : Enc} {ops : List Op} {t : Tx} {obj : ObjId} {i : Nat} {ck : Bool} {o : Op} {el : OpId}
+
+/-- "put (list index)": the op targets the visible element `el` containing unit `i`; afterwards
+    that element holds exactly the new value — one entry, no conflict. -/
+theorem C03_list_put_value {v : Scalar} (hs : StrictIds ops) (hlt : ∀ x ∈ ops, x.id.lt t.nextId = true)
+    (hnp : ∀ x ∈ ops, t.nextId ∉ x.pred)
+    (h : localPut e ops t obj (.inr i) (.put v) true = .ok [o]) (hk : o.key = .elem el)
+    (ha : o.action = .put v) :
+    elemRegister (ops ++ [o]) obj el = [⟨t.nextId, Val.ofScalar v⟩] :=
+  list_value_effect hs hlt hnp h hk (by simp [Op.isValue, ha])
+
+/-- the special cases of `resolve_action` on a list element: put equal to the winner of a
+    conflicted element deletes the losers and leaves exactly the winner -/
+theorem C03_list_put_resolves_conflict {v : Scalar} (hs : StrictIds ops)
+    (hlt : ∀ x ∈ ops, x.id.lt t.nextId = true) (hnp : ∀ x ∈ ops, t.nextId ∉ x.pred)
+    (h : localPut e ops t obj (.inr i) (.put v) true = .ok [o]) (hk : o.key = .elem el)
+    (ha : o.action = .del) :
+    ∃ w, (elemRegister ops obj el).getLast? = some w ∧ w.val = Val.ofScalar v ∧
+      2 ≤ (elemRegister ops obj el).length ∧ elemRegister (ops ++ [o]) obj el = [w] :=
+  list_put_conflict_effect hs hlt hnp h hk ha
+
+/-- "delete (list index)": the element's register becomes empty. -/
+theorem C03_list_delete_register (hs : StrictIds ops) (hlt : ∀ x ∈ ops, x.id.lt t.nextId = true)
+    (hnp : ∀ x ∈ ops, t.nextId ∉ x.pred) (h : localPut e ops t obj (.inr i) .del ck = .ok [o])
+    (hk : o.key = .elem el) : elemRegister (ops ++ [o]) obj el = [] :=
+  list_delete_effect hs hlt hnp h hk
+
+/-- "increment (list index)": the element's counters grow by `n`, its other values leave. -/
+theorem C03_list_increment {n : Int} (hs : StrictIds ops) (hlt : ∀ x ∈ ops, x.id.lt t.nextId = true)
+    (hnp : ∀ x ∈ ops, t.nextId ∉ x.pred) (h : localPut e ops t obj (.inr i) (.inc n) ck = .ok [o])
+    (hk : o.key = .elem el) :
+    elemRegister (ops ++ [o]) obj el = (elemRegister ops obj el).filterMap (Entry.bump n) :=
+  list_increment_effect hs hlt hnp h hk
+
+/-- "… and leaves everything else unchanged": an indexed put / delete / increment leaves the
+    element order of every object, every other element of the object, and all registers, keys and
+    visible elements of every other object as they were. -/
+theorem C03_list_op_others {a : Action} (hs : StrictIds ops) (hlt : ∀ x ∈ ops, x.id.lt t.nextId = true)
+    (hnp : ∀ x ∈ ops, t.nextId ∉ x.pred) (hr : RefsSmaller ops)
+    (h : localPut e ops t obj (.inr i) a ck = .ok [o]) (hk : o.key = .elem el) :
+    (∀ obj', rgaOrder (ops ++ [o]) obj' = rgaOrder ops obj') ∧
+    (∀ el', el' ≠ el → elemRegister (ops ++ [o]) obj el' = elemRegister ops obj el') ∧
+    (∀ obj', obj' ≠ obj →
+      (∀ el', elemRegister (ops ++ [o]) obj' el' = elemRegister ops obj' el') ∧
+      (∀ k', mapRegister (ops ++ [o]) obj' k' = mapRegister ops obj' k') ∧
+      mapKeys (ops ++ [o]) obj' = mapKeys ops obj' ∧
+      seqElems (ops ++ [o]) obj' = seqElems ops obj') := by
+  obtain ⟨htx, _, ho, hi⟩ := localPut_list_txOp hs hlt hnp h hk
+  refine ⟨fun obj' => rgaOrder_append_noninsert hr hi obj',
+    fun el' hne => htx.elem_other_elemRegister ho hk hi (.inr hne), fun obj' hne => ?_⟩
+  exact ⟨fun el' => htx.elem_other_elemRegister ho hk hi (.inl hne),
+    fun k' => htx.elem_other_mapRegister ho k' hne, htx.elem_other_keys ho hne,
+    seqElems_congr (rgaOrder_append_noninsert hr hi obj')
+      (fun c _ => htx.elem_other_elemRegister ho hk hi (.inl hne))⟩
+
+/-- positions are meaningful: under distinct ids and well-founded references the element order
+    (hence the visible element list) names no element twice -/
+theorem C03_order_lists_no_id_twice (hs : StrictIds ops) (hr : RefsSmaller ops) (obj : ObjId) :
+    ((rgaOrder ops obj).map (·.id)).Nodup ∧ ((seqElems ops obj).map (·.1)).Nodup :=
+  ⟨rgaOrder_ids_nodup hs hr obj, seqElems_ids_nodup (rgaOrder_ids_nodup hs hr obj)⟩
+
+example : (rgaOrder ops0 lst).map (·.id) = [⟨5, [1]⟩, ⟨6, [2]⟩, ⟨6, [1]⟩] := by decide
+
+/-- "the list of visible elements is the old one with position `i` changed / removed": in a list
+    object the call acts on the element at position `i`; afterwards the visible element list is
+    the old one with position `i` showing the element's new register, or — when that is empty
+    (delete) — with position `i` removed.  (Uses `C03_order_lists_no_id_twice`.) -/
+theorem C03_list_op_at_index {a : Action} (hs : StrictIds ops) (hlt : ∀ x ∈ ops, x.id.lt t.nextId = true)
+    (hnp : ∀ x ∈ ops, t.nextId ∉ x.pred) (hr : RefsSmaller ops)
+    (hty : objType ops obj = some .list)
+    (h : localPut e ops t obj (.inr i) a ck = .ok [o]) :
+    ∃ el, o.key = .elem el ∧ (seqElems ops obj)[i]? = some (el, elemRegister ops obj el) ∧
+      seqElems (ops ++ [o]) obj =
+        (seqElems ops obj).take i ++
+          (match elemRegister (ops ++ [o]) obj el with | [] => none | r => some (el, r)).toList ++
+          (seqElems ops obj).drop (i + 1) := by
+  obtain ⟨el, h1, h2, _, h4⟩ := list_op_at_list hs hlt hnp hr (rgaOrder_ids_nodup hs hr obj) hty h
+  exact ⟨el, h1, h2, h4⟩
+
+/-- the same for text, in units: the call acts on the visible element covering unit `i`
+    (position `j`, starting at the total width of the `j` elements before it). -/
+theorem C03_seq_op_at_unit {a : Action} (hs : StrictIds ops) (hlt : ∀ x ∈ ops, x.id.lt t.nextId = true)
+    (hnp : ∀ x ∈ ops, t.nextId ∉ x.pred) (hr : RefsSmaller ops)
+    (h : localPut e ops t obj (.inr i) a ck = .ok [o]) :
+    ∃ ty el j, objType ops obj = some ty ∧ o.key = .elem el ∧
+      (seqElems ops obj)[j]? = some (el, elemRegister ops obj el) ∧
+      unitsLen e (ty == .text) ((seqRegs ops obj).take j) ≤ i ∧
+      i < unitsLen e (ty == .text) ((seqRegs ops obj).take j) + regWidth e (ty == .text) (elemRegOps ops obj el) ∧
+      seqElems (ops ++ [o]) obj =
+        (seqElems ops obj).take j ++
+          (match elemRegister (ops ++ [o]) obj el with | [] => none | r => some (el, r)).toList ++
+          (seqElems ops obj).drop (j + 1) := by
+  obtain ⟨ty, el, j, h1, h2, _, h4, h5, h6, _, h8⟩ := list_op_at hs hlt hnp hr (rgaOrder_ids_nodup hs hr obj) h
+  exact ⟨ty, el, j, h1, h2, h4, h5, h6, h8⟩
+
+/-- delete of index 1 of [x, z]: the visible list loses exactly that element; put at index 0
+    replaces the value of x -/
+example : objType ops0 lst = some .list ∧
+    localPut .utf8 ops0 t0 lst (.inr 1) .del false =
+      .ok [⟨⟨10, [1]⟩, lst, .elem ⟨6, [2]⟩, false, .del, [⟨6, [2]⟩]⟩] ∧
+    seqElems ops0 lst = [(⟨5, [1]⟩, [⟨⟨5, [1]⟩, .scalar (.str [120])⟩]), (⟨6, [2]⟩, [⟨⟨6, [2]⟩, .scalar (.str [122])⟩])] ∧
+    seqElems (ops0 ++ [⟨⟨10, [1]⟩, lst, .elem ⟨6, [2]⟩, false, .del, [⟨6, [2]⟩]⟩]) lst =
+      [(⟨5, [1]⟩, [⟨⟨5, [1]⟩, .scalar (.str [120])⟩])] ∧
+    localPut .utf8 ops0 t0 lst (.inr 0) (.put (.int 7)) true =
+      .ok [⟨⟨10, [1]⟩, lst, .elem ⟨5, [1]⟩, false, .put (.int 7), [⟨5, [1]⟩]⟩] ∧
+    seqElems (ops0 ++ [⟨⟨10, [1]⟩, lst, .elem ⟨5, [1]⟩, false, .put (.int 7), [⟨5, [1]⟩]⟩]) lst =
+      [(⟨5, [1]⟩, [⟨⟨10, [1]⟩, .scalar (.int 7)⟩]), (⟨6, [2]⟩, [⟨⟨6, [2]⟩, .scalar (.str [122])⟩])] := by
+  decide
+
+end ListOps
+
+section Insert
+variable {e : Enc} {ops : List Op} {t : Tx} {obj : ObjId} {i : Nat} {a : Action} {o : Op}
+
+/-- "insert / insert_object": the op is an insert with no predecessors, keyed on HEAD or on a
+    visible element of the sequence. -/
+theorem C03_insert_op (h : localInsert e ops t obj i a = .ok [o]) :
+    o.id = t.nextId ∧ o.obj = obj ∧ o.insert = true ∧ o.action = a ∧ o.pred = [] ∧
+    (o.key = .head ∨ ∃ c ∈ rgaOrder ops obj, o.key = .elem c.id ∧ c.isMark = false ∧
+      elemRegister ops obj c.id ≠ []) :=
+  localInsert_ref h
+
+/-- **The RGA lemma.**  After the insert the element order (tombstones included) is the old order
+    with the new element immediately after its reference element — in front of all concurrent
+    siblings and their subtrees, because its id is the greatest — or at the very front for HEAD;
+    the new element holds exactly the inserted value; and the visible element list is the old one
+    with the new element immediately after the (visible) reference element. -/
+theorem C03_insert_order (hs : StrictIds ops) (hlt : ∀ x ∈ ops, x.id.lt t.nextId = true)
+    (hnp : ∀ x ∈ ops, t.nextId ∉ x.pred) (hnk : ∀ x ∈ ops, x.key ≠ .elem t.nextId) (hr : RefsSmaller ops)
+    (h : localInsert e ops t obj i a = .ok [o]) (hv : o.isValue = true) :
+    rgaOrder (ops ++ [o]) obj = (if o.key = .head then [o] else []) ++ insAfter o.key o (rgaOrder ops obj) ∧
+    elemRegister (ops ++ [o]) obj t.nextId = [⟨t.nextId, Val.ofAction a⟩] ∧
+    seqElems (ops ++ [o]) obj =
+      (if o.key = .head then [(t.nextId, [⟨t.nextId, Val.ofAction a⟩])] else []) ++
+        insAfterE o.key (t.nextId, [⟨t.nextId, Val.ofAction a⟩]) (seqElems ops obj) :=
+  insert_effect hs hlt hnp hnk hr h hv
+
+/-- insert at index 1 of [x, z] (order x, z, y† with y deleted): the new element goes right
+    after x, before the concurrent siblings z and y -/
+example : localInsert .utf8 ops0 t0 lst 1 (.put (.int 5)) =
+      .ok [⟨⟨10, [1]⟩, lst, .elem ⟨5, [1]⟩, true, .put (.int 5), []⟩] ∧
+    rgaOrder ops0 lst = [insX, insZ, insY] ∧
+    rgaOrder (ops0 ++ [⟨⟨10, [1]⟩, lst, .elem ⟨5, [1]⟩, true, .put (.int 5), []⟩]) lst =
+      [insX, ⟨⟨10, [1]⟩, lst, .elem ⟨5, [1]⟩, true, .put (.int 5), []⟩, insZ, insY] ∧
+    (∀ x ∈ ops0, x.key ≠ .elem t0.nextId) := by decide
+
+/-- "… at index `i`": in a list object the visible element list after the insert is the old one
+    with the new element at position `i` (`i ≤ length`). -/
+theorem C03_list_insert_at_index (hs : StrictIds ops) (hlt : ∀ x ∈ ops, x.id.lt t.nextId = true)
+    (hnp : ∀ x ∈ ops, t.nextId ∉ x.pred) (hnk : ∀ x ∈ ops, x.key ≠ .elem t.nextId) (hr : RefsSmaller ops)
+    (hty : objType ops obj = some .list)
+    (h : localInsert e ops t obj i a = .ok [o]) (hv : o.isValue = true) :
+    i ≤ (seqElems ops obj).length ∧
+    seqElems (ops ++ [o]) obj =
+      (seqElems ops obj).take i ++ [(t.nextId, [⟨t.nextId, Val.ofAction a⟩])] ++ (seqElems ops obj).drop i :=
+  insert_at_list hs hlt hnp hnk hr (rgaOrder_ids_nodup hs hr obj) hty h hv
+
+/-- in units (text): the new element lands behind the shortest run of visible elements whose
+    width reaches the index — at unit position `i` when `i` is an element boundary. -/
+theorem C03_seq_insert_at_unit (hs : StrictIds ops) (hlt : ∀ x ∈ ops, x.id.lt t.nextId = true)
+    (hnp : ∀ x ∈ ops, t.nextId ∉ x.pred) (hnk : ∀ x ∈ ops, x.key ≠ .elem t.nextId) (hr : RefsSmaller ops)
+    (h : localInsert e ops t obj i a = .ok [o]) (hv : o.isValue = true) :
+    ∃ ty j, objType ops obj = some ty ∧ j ≤ (seqElems ops obj).length ∧
+      i ≤ unitsLen e (ty == .text) ((seqRegs ops obj).take j) ∧
+      (0 < j → unitsLen e (ty == .text) ((seqRegs ops obj).take (j - 1)) < i) ∧
+      seqElems (ops ++ [o]) obj =
+        (seqElems ops obj).take j ++ [(t.nextId, [⟨t.nextId, Val.ofAction a⟩])] ++ (seqElems ops obj).drop j :=
+  insert_at hs hlt hnp hnk hr (rgaOrder_ids_nodup hs hr obj) h hv
+
+example : (seqElems (ops0 ++ [⟨⟨10, [1]⟩, lst, .elem ⟨5, [1]⟩, true, .put (.int 5), []⟩]) lst).map (·.1) =
+    [⟨5, [1]⟩, ⟨10, [1]⟩, ⟨6, [2]⟩] := by decide
+
+/-- "… and leaves everything else unchanged": an insert leaves every map register and key set,
+    every other element register, and the element order and visible elements of every other
+    object as they were. -/
+theorem C03_insert_others (hlt : ∀ x ∈ ops, x.id.lt t.nextId = true) (hr : RefsSmaller ops)
+    (h : localInsert e ops t obj i a = .ok [o]) :
+    (∀ obj' k', mapRegister (ops ++ [o]) obj' k' = mapRegister ops obj' k') ∧
+    (∀ obj', mapKeys (ops ++ [o]) obj' = mapKeys ops obj') ∧
+    (∀ obj' el', obj' ≠ obj ∨ el' ≠ t.nextId →
+      elemRegister (ops ++ [o]) obj' el' = elemRegister ops obj' el') ∧
+    (∀ obj', obj' ≠ obj →
+      rgaOrder (ops ++ [o]) obj' = rgaOrder ops obj' ∧ seqElems (ops ++ [o]) obj' = seqElems ops obj') := by
+  obtain ⟨hid, hobj, hi, _, hp, hkey⟩ := localInsert_ref h
+  have hk : ∀ k, o.key ≠ .map k := by
+    intro k hk
+    rcases hkey with h0 | ⟨_, _, h0, _⟩ <;> rw [h0] at hk <;> cases hk
+  rw [← hid] at hlt ⊢
+  subst hobj
+  refine ⟨fun obj' k' => insert_mapRegister hp hk obj' k', fun obj' => insert_mapKeys hp hk obj',
+    fun obj' el' hne => insert_elemRegister_other hp hi hne, fun obj' hne => ?_⟩
+  have ho := rgaOrder_insert_other hlt hr hne
+  exact ⟨ho, seqElems_congr ho (fun c _ => insert_elemRegister_other hp hi (.inl hne))⟩
+
+end Insert
+
+/-! ## (6) splice_text -/
+
+section Splice
+variable {e : Enc} {ops : List Op} {t : Tx} {obj : ObjId} {index : Nat} {text : Bytes} {l : List Op}
+
+/-- "splice_text" without deletion, element level: the call appends one insert op per scalar
+    value of the text, the first keyed on the reference element of the position and each next one
+    on the previous; the visible element list is the old one with the pieces, in order, at
+    position `j` — behind the shortest run of visible elements whose width in units reaches
+    `index` (exactly at unit `index` when that is an element boundary).
+    Freshness is stated on counters (`CtrBelow`): every id, predecessor and reference element in
+    `ops` has a counter below the transaction's next counter — what C04's start op gives.
+
+    PARTIAL: `del = 0` only.  Missing: with `del > 0` the delete loop (`deleteLoop`) then removes
+    whole elements from unit `idx + inserted width` on until `del` units are gone; the full
+    statement is  textOf (after) = textOf (take j) ++ text ++ textOf (drop (j + m))  where `m` is
+    the least number of elements after position `j` whose width reaches `del` (all remaining
+    elements if there are fewer).  Each delete step is `C03_seq_op_at_unit` with action `.del`;
+    the induction over the loop is not done. -/
+theorem C03_splice_text_elements_partial (hs : StrictIds ops)
+    (hb : CtrBelow ops (t.startOp + t.pending.length)) (hr : RefsSmaller ops)
+    (h : localSpliceText e ops t obj index 0 text = .ok l) (hne : text ≠ []) :
+    objType ops obj = some .text ∧
+    ∃ key j, l = chainInserts t obj (utf8Chars text) key 0 ∧ j ≤ (seqElems ops obj).length ∧
+      index ≤ unitsLen e true ((seqRegs ops obj).take j) ∧
+      (0 < j → unitsLen e true ((seqRegs ops obj).take (j - 1)) < index) ∧
+      seqElems (ops ++ l) obj =
+        (seqElems ops obj).take j ++ chainEntries t (utf8Chars text) 0 ++ (seqElems ops obj).drop j :=
+  splice_insert_at hs hb hr h hne
+
+/-- … text level: the resulting text is the old text with the new text inserted at that
+    position.  PARTIAL: `del = 0` only (see above). -/
+theorem C03_splice_text_content_partial (hs : StrictIds ops)
+    (hb : CtrBelow ops (t.startOp + t.pending.length)) (hr : RefsSmaller ops)
+    (h : localSpliceText e ops t obj index 0 text = .ok l) (hne : text ≠ []) :
+    ∃ j, j ≤ (seqElems ops obj).length ∧
+      index ≤ unitsLen e true ((seqRegs ops obj).take j) ∧
+      (0 < j → unitsLen e true ((seqRegs ops obj).take (j - 1)) < index) ∧
+      textOf (seqElems (ops ++ l) obj) =
+        textOf ((seqElems ops obj).take j) ++ text ++ textOf ((seqElems ops obj).drop j) :=
+  splice_text_content hs hb hr h hne
+
+/-- splice_text(pos, 0, "") does nothing -/
+theorem C03_splice_text_nothing (h : localSpliceText e ops t obj index 0 [] = .ok l) : l = [] :=
+  splice_text_empty h
+
+/-- "ab" with "XY" spliced in at 1 reads "aXYb"; the two ops form a chain -/
+example : StrictIds opsT ∧ CtrBelow opsT (tT.startOp + tT.pending.length) ∧ RefsSmaller opsT ∧
+    chainInserts tT txt [[88], [89]] (.elem ⟨2, [1]⟩) 0 =
+      [⟨⟨4, [1]⟩, txt, .elem ⟨2, [1]⟩, true, .put (.str [88]), []⟩,
+       ⟨⟨5, [1]⟩, txt, .elem ⟨4, [1]⟩, true, .put (.str [89]), []⟩] ∧
+    textOf (seqElems opsT txt) = [97, 98] ∧
+    textOf (seqElems (opsT ++ chainInserts tT txt [[88], [89]] (.elem ⟨2, [1]⟩) 0) txt) = [97, 88, 89, 98] := by
+  decide
+
+example : localSpliceText .utf8 opsT tT txt 1 0 [88, 89] =
+    .ok (chainInserts tT txt [[88], [89]] (.elem ⟨2, [1]⟩) 0) := by
+  rw [localSpliceText_eq, utf8Chars_ascii [88, 89] (by decide)]; decide
+
+end Splice
 
 end AmVerif.Props.C03
